@@ -265,6 +265,9 @@ def mask_spec(pid, optoks, spec):
             return spec if pid == "C08" else "-"
         return spec if pid in ("C07", "C10", "C11", "C08") else "-"
     if optoks and optoks[0] == "oattrs":
+        if pid == "C10":
+            t = spec.split(" ")
+            return "-- - - " + t[3] if len(t) >= 4 else "-"      # collections compose the point count
         return spec if pid == "C11" else "-"
     if optoks and optoks[0] == "opred":
         return spec if pid == "C10" else "-"
